@@ -223,8 +223,9 @@ func (w *world) noise() Input {
 	oth := w.others()
 	s := lib.Pick(w.r, oth)
 	switch w.r.Intn(7) {
-	case 0, 6: // future height; precommits of a future height come from ONE sender only, so they
-		// never form a future quorum (that would start the sync path, which needs a block fetcher)
+	case 0, 6: // future height — including enough precommits from different senders to form a quorum
+		// of the future height (the state machine then answers TriggerSync; the harness keeps that
+		// action from the driver, see smWrap.call)
 		pv := w.planned(h + 1)
 		switch w.r.Intn(4) {
 		case 0, 1:
@@ -233,6 +234,9 @@ func (w *world) noise() Input {
 			}
 			return w.vote("v", h+1, 0, s, pv, false)
 		case 2:
+			if w.r.Chance(1, 3) {
+				return w.vote("c", h+1, 0, s, pv, false) // may complete a quorum of the future height
+			}
 			return w.vote("c", h+1, 0, oth[0], pv, false)
 		}
 		pi := w.cfg.proposerIdx(h+1, 0)
